@@ -3,3 +3,5 @@
 package nodes
 
 func verifPermute(deps []NodeDependency) {}
+
+func verifYield(site string) {}
